@@ -1696,6 +1696,9 @@ namespace ipr::impl {
 
       const ipr::Identifier& name_factory::get_identifier(const ipr::String& s)
       {
+         // Reserved words are themselves identifiers; they name the built-in types and constants.
+         if (auto word = word_if_known(s.characters()))
+            return *word;
          return *ids.insert(s, id_compare());
       }
 
